@@ -20,10 +20,13 @@ var props = map[string]propFunc{
 	"C04": runC04,
 	"C18": runC18,
 	"C19": runC19,
+	"C20": runC20,
 	"C05": runC05,
 	"C06": runC06,
 	"C07": runC07,
 	"C08": runC08,
+	"C09": runC09,
+	"C15": runC15,
 	"C10": runC10,
 	"C11": runC11,
 	"C12": runC12,
